@@ -32,6 +32,7 @@ pub struct Window {
     size: u16,
     chunk_size: usize,
     file: File,
+    eof: bool,
 }
 
 impl Window {
@@ -42,12 +43,17 @@ impl Window {
             size,
             chunk_size,
             file,
+            eof: false,
         }
     }
 
     /// Fills the `Window` with chunks of data from the file.
     /// Returns `true` if the `Window` is full.
     pub fn fill(&mut self) -> Result<bool, Box<dyn Error>> {
+        if self.eof {
+            return Ok(false);
+        }
+
         for _ in self.len()..self.size {
             let mut chunk = vec![0; self.chunk_size];
             let size = self.file.read(&mut chunk)?;
@@ -55,6 +61,7 @@ impl Window {
             if size != self.chunk_size {
                 chunk.truncate(size);
                 self.elements.push_back(chunk);
+                self.eof = true;
                 return Ok(false);
             }
 
